@@ -89,7 +89,7 @@ def main():
           for pid in ALL if pid not in CLAIMS]
     man = {
         'version': 1,
-        'setup_cmd': 'cd lean && lake build',
+        'setup_cmd': 'sh tools/setup.sh',
         'hooks': {
             'guard': 'PYGYRO_VERIF',
             'enable': 'no source hooks are needed: the harness substitutes mpi4py / wraps h5py.File from outside (sys.path), so /repo is used as it is',
